@@ -110,7 +110,7 @@ def run(run, thorough):
     out = engine.run_all(run, 'uninterrupted', scns)
     jobs = [('put', 'x', res['steps'][0], {'scenario': scn}) for scn, res in out]
     engine.run_monitors(run, 'put-monitor', jobs, 'the put-discipline monitor (Coq, C05) rejects the implementation trace: payload moved before its '
-                        'info was created, written and closed', 'payload-before-info')
+                        'info was created, written and closed', 'payload-before-info', silent=True)
     by_id = {id(s): m for s, m in zip(scns, metas)}
     for scn, res in out:
         putlib.conservation(run, scn, by_id[id(scn)], res, 'final-state')
@@ -134,4 +134,4 @@ def replay(run, payload):
     meta = {'args': args, 'fallback': '--home-fallback' in scn['steps'][0]['argv']}
     print('trash-put', [esc(a) for a in scn['steps'][0]['argv']], 'exit', res['steps'][0]['exit'], 'mutations', res['steps'][0].get('muts'))
     sweep(run, scn, meta)
-    engine.run_monitors(run, 'put-monitor', [('put', 'x', res['steps'][0], {'scenario': scn})], 'put-discipline monitor rejects', 'payload-before-info')
+    engine.run_monitors(run, 'put-monitor', [('put', 'x', res['steps'][0], {'scenario': scn})], 'put-discipline monitor rejects', 'payload-before-info', silent=True)
